@@ -9,8 +9,11 @@ Local Open Scope Z_scope.
 
 Definition ended (c : ctl) (id : Z) : Prop := exists o, get_op c id = Some o /\ is_end_status (o_st o) = true.
 
+(* ended, and GetOperatorStatus has a record for the region it ran on *)
+Definition gone (c : ctl) (rid id : Z) : Prop := ended c id /\ alist_get (records c) rid <> None.
+
 Definition Left (c c' : ctl) : Prop :=
-  forall rid id, In (rid, id) (running c) -> In (rid, id) (running c') \/ ended c' id.
+  forall rid id, In (rid, id) (running c) -> In (rid, id) (running c') \/ gone c' rid id.
 
 (* every running entry names an existing operator *)
 Definition RunOps (c : ctl) : Prop := forall rid id, In (rid, id) (running c) -> exists o, get_op c id = Some o.
@@ -26,6 +29,12 @@ Proof.
   intros F (o & Ho & E). destruct (F _ _ Ho) as (o' & Ho' & R). exists o'. split; [exact Ho'|].
   destruct R as (_ & _ & _ & _ & _ & _ & _ & _ & R9). rewrite <- (reach_from_end _ _ E R9). exact E.
 Qed.
+
+Lemma gone_fwd c c' rid id : Frame c c' -> gone c rid id -> gone c' rid id.
+Proof. intros F [E R]. split; [eapply ended_fwd; eauto|apply (fr_keep _ _ F), R]. Qed.
+
+Lemma gone_ops_fwd c c' rid id : ops_fwd c c' -> records c' = records c -> gone c rid id -> gone c' rid id.
+Proof. intros F Hr [E R]. split; [eapply ended_ops_fwd; eauto|rewrite Hr; exact R]. Qed.
 
 Lemma ops_fwd_trans a b c : ops_fwd a b -> ops_fwd b c -> ops_fwd a c.
 Proof.
@@ -43,7 +52,7 @@ Lemma Left_trans a b c : Left a b -> Left b c -> Frame b c -> Left a c.
 Proof.
   intros L1 L2 F rid id H. destruct (L1 _ _ H) as [H1|H1].
   - apply L2. exact H1.
-  - right. eapply ended_fwd; eauto.
+  - right. eapply gone_fwd; eauto.
 Qed.
 
 Lemma Left_same c c' : running c' = running c -> Left c c'.
@@ -74,7 +83,7 @@ Qed.
 (* the entry of one region disappears and its operator is ended: everybody else stays *)
 Lemma left_del c cx rid id :
   RInv c -> alist_get (running c) rid = Some id ->
-  (forall r i, r <> rid -> In (r, i) (running c) -> In (r, i) (running cx)) -> ended cx id -> Left c cx.
+  (forall r i, r <> rid -> In (r, i) (running c) -> In (r, i) (running cx)) -> gone cx rid id -> Left c cx.
 Proof.
   intros Hnd Hget Hkeep Hend r i Hin. destruct (Z.eq_dec r rid) as [->|Hne].
   - right. rewrite (alist_unique _ _ _ _ Hnd Hin Hget). exact Hend.
@@ -91,6 +100,15 @@ Proof.
   exists o'. split.
   - change (get_op (set_op c o') id = Some o'). rewrite <- I. apply get_set_op_same with (o := o). rewrite I. exact Ho.
   - unfold o'. destruct (op_is_end o) eqn:E; [exact E|apply op_to_end_cancel].
+Qed.
+
+Lemma bury_gone c id o : get_op c id = Some o -> gone (bury c id) (o_rid o) id.
+Proof.
+  intros Ho. split; [eapply bury_ended; eauto|].
+  unfold bury. rewrite Ho. cbn [records upd]. rewrite alist_get_set.
+  set (o' := if op_is_end o then o else fst (op_to o CANCELED)).
+  assert (E : o_rid o' = o_rid o) by (unfold o'; destruct (op_is_end o); [reflexivity|destruct (rel_op_to o CANCELED) as (_ & R2 & _); exact R2]).
+  rewrite E, Z.eqb_refl. discriminate.
 Qed.
 
 Lemma running_bury c id : running (bury c id) = running c.
@@ -113,7 +131,8 @@ Proof.
   - intros r i Hne Hin. rewrite running_bury, running_cancel. cbn. apply alist_del_keeps; auto.
   - set (c1 := set_running c (alist_del (running c) (o_rid o))).
     assert (H1 : get_op c1 id = Some o) by exact Ho.
-    destruct (get_op_cancel c1 id o H1) as (o' & Ho'). eapply bury_ended; eauto.
+    destruct (fr_fwd _ _ (frame_cancel c1 id) _ _ H1) as (o' & Ho' & R').
+    destruct R' as (_ & R2 & _). rewrite <- R2. apply bury_gone. exact Ho'.
 Qed.
 
 (* running entries are keyed by the operator's own region *)
@@ -150,14 +169,14 @@ Proof.
     assert (Hi : o_id old = oldid) by (eapply get_op_id; eauto).
     assert (Hrun : running (bury (set_op (fst (remove_locked c old)) (fst (op_to old REPLACED))) oldid) = alist_del (running c) (o_rid o)).
     { rewrite running_bury. unfold remove_locked. rewrite Hk, Hget, Hi, Z.eqb_refl. reflexivity. }
-    assert (Hend : ended (bury (set_op (fst (remove_locked c old)) (fst (op_to old REPLACED))) oldid) oldid).
+    assert (Hend : gone (bury (set_op (fst (remove_locked c old)) (fst (op_to old REPLACED))) oldid) (o_rid o) oldid).
     { pose proof (frame_remove_locked c old) as F1.
       destruct (fr_fwd _ _ F1 _ _ Hold) as (old1 & Hold1 & _).
       assert (I : o_id (fst (op_to old REPLACED)) = oldid).
       { destruct (rel_op_to old REPLACED) as (R1 & _). congruence. }
       assert (H2 : get_op (set_op (fst (remove_locked c old)) (fst (op_to old REPLACED))) oldid = Some (fst (op_to old REPLACED))).
       { rewrite <- I. apply get_set_op_same with (o := old1). rewrite I. exact Hold1. }
-      eapply bury_ended; eauto. }
+      rewrite <- Hk. destruct (rel_op_to old REPLACED) as (_ & R2 & _). rewrite <- R2. apply bury_gone. exact H2. }
     split.
     - apply left_del with (rid := o_rid o) (id := oldid); auto.
       intros r i Hne Hin. rewrite Hrun. apply alist_del_keeps; auto.
@@ -177,9 +196,9 @@ Proof.
   destruct started; cbn [negb]; [|exact L1].
   (* the new entry replaces only the entry of its own region, which c1 has already dealt with *)
   assert (L2 : forall cx, (forall r i, r <> o_rid o -> In (r, i) (running c1) -> In (r, i) (running cx)) ->
-                     ops_fwd c1 cx -> Left c cx).
-  { intros cx Hk He r i Hin. destruct (Z.eq_dec r (o_rid o)) as [->|Hne].
-    - destruct (L1 _ _ Hin) as [H1|H1]; [|right; eapply ended_ops_fwd; eauto].
+                     ops_fwd c1 cx -> records cx = records c1 -> Left c cx).
+  { intros cx Hk He Hrec r i Hin. destruct (Z.eq_dec r (o_rid o)) as [->|Hne].
+    - destruct (L1 _ _ Hin) as [H1|H1]; [|right; eapply gone_ops_fwd; eauto].
       exfalso. unfold c1 in H1. destruct (alist_get (running c) (o_rid o)) as [oldid|] eqn:Hget.
       + destruct (get_op c oldid) as [old|] eqn:Hold.
         * assert (Hk' : o_rid old = o_rid o) by (eapply K; [apply alist_get_In; exact Hget|exact Hold]).
@@ -346,7 +365,8 @@ Proof.
     { apply left_del with (rid := o_rid o) (id := id); [apply (wf_rinv _ H1)|exact Hget| |].
       - intros r0 i Hne Hin. unfold cb. rewrite running_bury, running_cancel. cbn. apply alist_del_keeps; auto.
       - assert (Hcr : get_op cr id = Some o) by exact Ho1.
-        destruct (get_op_cancel cr id o Hcr) as (o' & Ho'). eapply bury_ended; eauto. }
+        destruct (fr_fwd _ _ (frame_cancel cr id) _ _ Hcr) as (o' & Ho' & R').
+        destruct R' as (_ & R2 & _). rewrite <- R2. apply bury_gone. exact Ho'. }
     eapply Left_trans; [exact Lb|apply left_promote; eapply WF_frame; [exact Fb|eapply WF_frame; eauto]|apply frame_promote]. }
   assert (Lr : Left (set_op c o) (let '(c2, removed) := remove_operator (set_op c o) id in if removed then promote c2 else c2)).
   { pose proof (frame_remove_operator (set_op c o) id) as F. pose proof (left_remove_operator (set_op c o) id (wf_rinv _ H1)) as L.
@@ -368,7 +388,7 @@ Proof.
   destruct Fp as [Fp Lp]. destruct p as [c2 handled]. cbn [fst] in Fp, Lp.
   assert (L2 : Left c c2) by (eapply Left_trans; [exact L1|exact Lp|exact Fp]).
   destruct handled; [exact L2|]. intros rr ii Hin. destruct (L2 _ _ Hin) as [X|X]; [left; exact X|right].
-  eapply ended_fwd; [apply frame_send|exact X].
+  eapply gone_fwd; [apply frame_send|exact X].
 Qed.
 
 (* ---------- every event ---------- *)
@@ -440,7 +460,17 @@ Lemma left_running_is_ended_pf maxw es e rid id :
   exists o, get_op (fst (ctl_step (run_state ctl_step (init maxw) es) e)) id = Some o /\ is_end_status (o_st o) = true.
 Proof.
   intros Hin Hout. destruct (ctl_step_wf_left _ e (WF_history maxw es)) as [_ L].
-  destruct (L _ _ Hin) as [X|X]; [contradiction|exact X].
+  destruct (L _ _ Hin) as [X|X]; [contradiction|exact (proj1 X)].
+Qed.
+
+(* ... and is recorded under its region *)
+Lemma left_running_has_record_pf maxw es e rid id :
+  In (rid, id) (running (run_state ctl_step (init maxw) es)) ->
+  ~ In (rid, id) (running (fst (ctl_step (run_state ctl_step (init maxw) es) e))) ->
+  alist_get (records (fst (ctl_step (run_state ctl_step (init maxw) es) e))) rid <> None.
+Proof.
+  intros Hin Hout. destruct (ctl_step_wf_left _ e (WF_history maxw es)) as [_ L].
+  destruct (L _ _ Hin) as [X|X]; [contradiction|exact (proj2 X)].
 Qed.
 
 (* running entries are keyed by the operator's own region, in every reachable state *)
